@@ -11,6 +11,7 @@ import (
 	"go/token"
 	"os"
 	"reflect"
+	"regexp"
 	"sort"
 	"strings"
 	"testing"
@@ -280,6 +281,13 @@ func judgeFile(t h.TB, sub string, c interface{}, fset *token.FileSet, af *ast.F
 		byText[cm.Text] = cm.Slash
 	}
 	for _, cm := range cs {
+		if directiveRE.MatchString(cm.Text) {
+			// go/printer's doc-comment formatter moves directive lines (//line, //go:..., //export ...)
+			// to the end of a group it takes for a doc comment: their rank among the comments is the
+			// printer's choice
+			h.Label("directive-comment-not-ranked")
+			continue
+		}
 		if q, ok := byText[cm.Text]; ok && uniq[cm.Text] == 1 {
 			P, Q, names = append(P, cm.Slash), append(Q, q), append(names, "comment "+cm.Text)
 		}
@@ -301,6 +309,8 @@ func judgeFile(t h.TB, sub string, c interface{}, fset *token.FileSet, af *ast.F
 		}
 	}
 }
+
+var directiveRE = regexp.MustCompile(`^//(line |extern |export |[a-z0-9]+:[a-z0-9])`)
 
 func genCase(sub string) func(t *rapid.T) (Case, bool) {
 	return func(t *rapid.T) (Case, bool) {
